@@ -26,6 +26,7 @@ type HSpec struct {
 	Reach     []string       `json:"reach"` // vacuity witnesses that must be reached
 	MergeOff  bool           `json:"merge_off"`
 	Automaton int            `json:"automaton"` // >0: state-merged exploration, value = cap on abstract states
+	Corpus    bool           `json:"corpus"`    // translator validation on the repository's test corpus
 }
 
 type CSpec struct {
@@ -125,6 +126,7 @@ func viaKey(v *Violation) string {
 var solverDiff string
 var specialViol int
 var specialRep interface{}
+var corpusRep interface{}
 
 func runCheck(args []string) int {
 	id := args[0]
@@ -183,6 +185,24 @@ func runCheck(args []string) int {
 			params = map[string]int{}
 		}
 		params["seed"] = seed
+		if h.Corpus {
+			tc := time.Now()
+			cres, cviol := runCorpus(env, nb, modPath+"/"+h.Fn, 0)
+			corpusRep = cres
+			for _, m := range cres.Mismatches {
+				inconcl = append(inconcl, "translator validation: engine and native library disagree on "+m)
+			}
+			for _, m := range cres.EngineFail {
+				inconcl = append(inconcl, "translator validation: "+m)
+			}
+			allViol = append(allViol, cviol...)
+			hev = append(hev, harnessEvidence{Harness: h.Fn + " (corpus)", Params: map[string]int{"cases": cres.Cases}, Paths: cres.Cases,
+				Outcomes: map[string]int{"ok": cres.Expectation}, Instrs: cres.Instrs, WallS: time.Since(tc).Seconds(),
+				Reached: map[string]int{"selfcheck/engine-native-agree": cres.Agree}, Violations: len(cviol)})
+			fmt.Fprintf(os.Stderr, "translator validation: %d corpus cases, %d agree with the native library, %d with the expected code, %d mismatches\n",
+				cres.Cases, cres.Agree, cres.Expectation, len(cres.Mismatches)+len(cres.EngineFail))
+			continue
+		}
 		r := &Run{Env: env, Harness: modPath + "/" + h.Fn, Params: params, MapOrder: h.MapOrder, PanicIsOK: h.PanicIsOK,
 			PoolDrain: h.PoolDrain, Fuel: h.Fuel, MergeOff: h.MergeOff, Quiet: false, DiffEvery: 97}
 		if strings.HasPrefix(h.Fn, ".") {
@@ -500,6 +520,7 @@ func writeEvidence(id, tier string, seed int, hev []harnessEvidence, samples []i
 		"solver":                        "z3 5.1.0 (z3-new) over a pipe, one process per worker, no set-logic",
 		"solver_diff":                   solverDiff,
 		"static_pass":                   specialRep,
+		"translator_validation":         corpusRep,
 	}
 	ev := map[string]interface{}{
 		"property_id": id,
